@@ -15,8 +15,10 @@ open Chrono Chrono.M Chrono.M.Round Chrono.Spec Chrono.Spec.Round Chrono.Proofs.
 open Chrono.Extracted.Round
 
 /-- the data read from src/round.rs on this run is what the theorems below are about: the guard is
-`span <= 0`, a tie goes up (`delta_up <= delta_down`), the stamp is in nanoseconds -/
-theorem extracted_ok : SPAN_REFUSED_MAX = 0 ∧ TIE_UP = true ∧ STAMP_SCALE = 1000000000 ∧
+`span <= 0` in all three functions, a tie goes up (`delta_up <= delta_down`) in `duration_round` and in
+`round_subsecs`, the stamp is in nanoseconds -/
+theorem extracted_ok : SPAN_REFUSED_MAX_ROUND = 0 ∧ SPAN_REFUSED_MAX_TRUNC = 0 ∧
+    SPAN_REFUSED_MAX_UP = 0 ∧ TIE_UP = true ∧ TIE_UP_SUBSEC = true ∧ STAMP_SCALE = 1000000000 ∧
     SPAN_TABLE.length = 9 ∧ SPAN_DEFAULT = 1 := by decide
 
 /-- The closed forms are what the property says: `truncSpec` is the greatest multiple of the span
